@@ -1661,6 +1661,38 @@ func (e *FEnc) mergeStates(b *ssa.BasicBlock, es []inEdge) (*State, []string) {
 			st.called[k] = m
 		}
 	}
+	st.ncalls = map[string]string{}
+	{
+		names := map[string]bool{}
+		for _, ed := range es {
+			for k := range ed.state.ncalls {
+				names[k] = true
+			}
+		}
+		for _, k := range sortedKeys(names) {
+			var ts []string
+			same := true
+			for _, ed := range es {
+				t, ok := ed.state.ncalls[k]
+				if !ok {
+					t = "0"
+				}
+				ts = append(ts, t)
+				if t != ts[0] {
+					same = false
+				}
+			}
+			if same {
+				st.ncalls[k] = ts[0]
+				continue
+			}
+			m := e.fresh("ncalls", "Int")
+			for i := range es {
+				e.fact(implies(conds[i], eq(m, ts[i])))
+			}
+			st.ncalls[k] = m
+		}
+	}
 	st.pub = map[int]*Val{}
 	for id, v := range es[0].state.pub {
 		same := true
@@ -1845,6 +1877,10 @@ func (e *FEnc) enterBlock(b *ssa.BasicBlock) *State {
 						hs.called = map[string]string{}
 					}
 					hs.called[nm] = e.fresh("called", "Bool")
+					if hs.ncalls == nil {
+						hs.ncalls = map[string]string{}
+					}
+					hs.ncalls[nm] = e.fresh("ncalls", "Int")
 				}
 			}
 		}
